@@ -33,7 +33,7 @@ def mk_scalar(sc, opdtype=None):
     """NumPy-typed scalars take the precision of the operand they scale (never wider: a wider NumPy scalar on a
     narrower operator is recorded in DESIGN 4.0 as 'not judged')."""
     if opdtype is not None:
-        sc = dict(sc, dt=P.code_of(np.dtype(opdtype)))
+        sc = dict(sc, dt=P.code_of(np.dtype(opdtype)) if np.dtype(opdtype).kind in "fc" else "f8")
     t = sc["t"]
     if t == "int":
         return int(sc["v"])
@@ -227,7 +227,32 @@ def gen(tier, rng, shard, nshards):
     for i in range(n):
         dtm = S.pick(rng, DTMODES)
         o = S.Opts(dtmode=dtm, clean=True, max_dim=int(S.pick(rng, [3, 4, 6])), exclude=LEAF_EXCLUDE, identity_dt="f4", routines=0.08)
-        if rng.random() < 0.12:
+        if rng.random() < 0.05:
+            # directed: operators over *integer-dtype* arrays (as in cola's own docstrings) under scalar multiples and quotients of
+            # every scalar type, alone and combined with floating-point operators: the promoted dtype of the dense computation
+            m_, n_ = int(rng.integers(1, 4)), int(rng.integers(1, 4))
+            il = lambda a=m_, b=n_: {"op": "leaf", "spec": {"k": "Dense", "shape": [a, b], "dt": "f8", "seed": S.seed(rng), "int_dtype": True, "via": S.pick(rng, ["ctor", "fn"])}}  # noqa: E731
+            fl = lambda a, b: {"op": "leaf", "spec": {"k": "Dense", "shape": [a, b], "dt": S.pick(rng, ["f4", "f8", "c16"]), "seed": S.seed(rng)}}  # noqa: E731
+            sc = S.pick(rng, [{"t": "float", "v": 0.5}, {"t": "float", "v": -2.5}, {"t": "float", "v": 0.25}, {"t": "int", "v": 3}, {"t": "int", "v": -2},
+                              {"t": "complex", "re": 0.5, "im": 1.0}, {"t": "npscalar", "v": 0.5}, {"t": "arr0", "v": 0.25}])
+            e = {"op": S.pick(rng, ["smul", "muls", "divs", "smul", "muls", "divs", "neg"]), "c": sc, "args": [il()]}
+            if e["op"] == "neg":
+                e.pop("c")
+            outer = S.pick(rng, ["none", "none", "add", "matmul", "kron", "again", "sum-int", "block_diag"])
+            if outer == "add":
+                e = {"op": S.pick(rng, ["add", "sub"]), "args": [e, fl(m_, n_)] if rng.random() < 0.5 else [fl(m_, n_), e]}
+            elif outer == "matmul":
+                e = {"op": "matmul", "args": [fl(int(rng.integers(1, 4)), m_), e]}
+            elif outer == "kron":
+                e = {"op": "kron", "args": [e, il(2, 1)]}
+            elif outer == "again":
+                e = {"op": S.pick(rng, ["smul", "divs"]), "c": S.pick(rng, [{"t": "float", "v": 0.5}, {"t": "int", "v": 2}]), "args": [e]}
+            elif outer == "sum-int":
+                e = {"op": "add", "args": [e, il()]}
+            elif outer == "block_diag":
+                e = {"op": "block_diag", "args": [il(), e]}
+            yield {"mode": "expr", "expr": e, "pattern": True}
+        elif rng.random() < 0.12:
             yield {"mode": "mismatch", "seed": S.seed(rng), "dtm": dtm}
         elif rng.random() < 0.3:
             yield {"mode": "expr", "expr": gen_pattern(rng, o), "pattern": True}
